@@ -1,4 +1,5 @@
 import ZChain.Proofs.Replicators
+import ZChain.Proofs.NodePools
 /-!
 # C42 — Replicating sharders are chosen deterministically
 
@@ -187,6 +188,65 @@ theorem not_enough_sharders (sc : List Score) (n : Int) (hl : (sc.length : Int) 
   unfold isInTop isInTopWithNodes
   have : ¬ n ≤ (sc.length : Int) := by omega
   simp [this]
+
+/-! ## pools over SHARED node objects (the same `*Node` in several pools; `SetIndex` lives on the object) -/
+
+open ZChain.NodePools in
+/-- **the set does not depend on `SetIndex`, hence not on what other pools did to the shared objects**: for pool `p` of a
+world of shared node objects whose node list is strictly ascending by key (every reachable pool: `addNodeW_nodes` +
+`poolOf_spec`), a hash at least as long as the ids and `0 < n ≤ #sharders`, a member is told to store the block iff
+fewer than `n` members score strictly higher — whatever `SetIndex` values the objects currently carry. -/
+theorem isBlockSharderW_spec (w : World) (p : Nat) (hp : KeyAsc ((poolNodes w p).map (nodeOf w))) (hash : List Nat)
+    (hlen : ∀ o ∈ poolNodes w p, (nodeOf w o).idBytes.length ≤ hash.length) (n : Nat) (hn : 0 < n)
+    (hl : n ≤ (poolNodes w p).length) :
+    ∃ sc, scoreObjs w hash (poolNodes w p) = some sc ∧ sc.map (·.node) = (poolNodes w p).map (nodeOf w) ∧
+      (∀ x ∈ sc, scoreBytes x.node.idBytes hash = some x.score) ∧
+      ∀ x ∈ sc, isBlockSharderW n w p (some hash) x.node.key
+        = some (decide ((sc.filter (fun y => decide (x.score < y.score))).length < n)) := by
+  obtain ⟨sc, hsc⟩ := scoreObjs_some w hash _ hlen
+  obtain ⟨hm, hs⟩ := scoreObjs_spec w hash _ sc hsc
+  refine ⟨sc, hsc, hm, hs, ?_⟩
+  intro x hx
+  have hkd : KeysDistinct sc := by
+    unfold KeysDistinct
+    have : (sc.map (·.node)).Pairwise (fun a b => a.key ≠ b.key) := by
+      rw [hm]; exact List.Pairwise.imp (fun h => Nat.ne_of_lt h) hp
+    rw [List.pairwise_map] at this
+    exact this
+  have hll : n ≤ sc.length := by
+    have : sc.length = (poolNodes w p).length := by
+      have := congrArg List.length hm; simpa using this
+    omega
+  have := top_iff_count sc hkd n hn hll x hx
+  unfold isBlockSharderW scoreHashStringW scoreHashW
+  have h2 : ¬ (n : Int) ≤ 0 := by omega
+  simp only [h2, if_false, hsc]
+  exact this
+
+open ZChain.NodePools in
+/-- **history independence**: building the members of a pool through ANY sequence of `AddNode` calls on shared objects
+— interleaved with `AddNode` calls on other pools that renumber the same objects — gives the node list of the pure
+pool of the same insertions (`NodePool.addNode`), to which `poolOf_order_independent` applies. One step: -/
+theorem addNodeW_is_addNode (w : World) (p o : Nat) :
+    (poolNodes (addNodeW w p o) p).map (nodeOf (addNodeW w p o)) = addNode ((poolNodes w p).map (nodeOf w)) (nodeOf w o) ∧
+    ∀ q, q ≠ p → (poolNodes (addNodeW w p o) q).map (nodeOf (addNodeW w p o)) = (poolNodes w q).map (nodeOf w) :=
+  addNodeW_nodes w p o
+
+/-- shared objects, concretely: A,B,C,D as objects 1-4 into pool 0; C and D also into pool 1 (their `SetIndex` becomes
+0 and 1); C re-added to pool 0 as a new object 5. Pool 0 still holds A,C,B,D once each, and the answers are those of the
+freshly built pool (`nA nB nC nD` of the examples below). -/
+theorem shared_objects_example :
+    let w0 := ZChain.NodePools.newObj (ZChain.NodePools.newObj (ZChain.NodePools.newObj (ZChain.NodePools.newObj
+      (ZChain.NodePools.newObj ZChain.NodePools.emptyWorld 1 ⟨0x0f, [0x0f]⟩) 2 ⟨0xf0, [0xf0]⟩) 3 ⟨0x3c, [0x3c]⟩) 4 ⟨0xff, [0xff]⟩)
+      5 ⟨0x3c, [0x3c]⟩
+    let w := [(0, 1), (0, 2), (0, 3), (0, 4), (1, 3), (1, 4), (0, 5)].foldl
+      (fun w po => ZChain.NodePools.addNodeW w po.1 po.2) w0
+    ZChain.NodePools.poolNodes w 0 = [1, 5, 2, 4] ∧
+    (ZChain.NodePools.getObj w 4).setIndex = 3 ∧ (ZChain.NodePools.getObj w 3).setIndex = 0 ∧
+    ZChain.NodePools.isBlockSharderW 2 w 0 (some [0]) 0x0f = some true ∧
+    ZChain.NodePools.isBlockSharderW 1 w 0 (some [0]) 0x0f = some false ∧
+    (ZChain.NodePools.canShardW 2 w 0 (some [0]) 0x0f).map (·.2.length) = some 4 := by
+  decide
 
 /-! ## non-vacuity: a concrete pool (1-byte ids), two insertion orders, a tie at the cut-off -/
 def nA : Node := ⟨0x0f, [0x0f]⟩
